@@ -211,10 +211,10 @@ def c01(tier):
         'rule': 'model: all pairs of subsets of 6 atoms x 48 binary-algebra calls (exhaustive, TLC) + all pairs of subsets of 5 chunk-sized cells (every alignment of chunk keys) x 48 calls; every transition is a script replayed under sampled concretisations x random build recipes; plus randomized real-scale traces; a case is one recorded call, non-trivial when it has at least one non-empty operand',
         'assumptions': ASSUME_SET,
         'phases': [
-            {'kind': 'replay', 'model': M('pairs_S6', 'pairs', 'S6'), 'kinds': K9, 'sample': 0.004 if q else 0.08},
-            {'kind': 'replay', 'model': M('keys_K5', 'keys', 'K5'), 'kinds': ['chunky', 'keyspread', 'chunky', 'keygaps'], 'sample': 0.06 if q else 1.0},
-            {'kind': 'drive', 'profile': 'algebra', 'traces': 160 if q else 3000, 'steps': 40},
-            {'kind': 'drive', 'profile': 'kernel', 'traces': 900 if q else 20000, 'steps': 0},
+            {'kind': 'replay', 'model': M('pairs_S6', 'pairs', 'S6'), 'kinds': K9, 'sample': 0.004 if q else 0.04},
+            {'kind': 'replay', 'model': M('keys_K5', 'keys', 'K5'), 'kinds': ['chunky', 'keyspread', 'chunky', 'keygaps'], 'sample': 0.06 if q else 0.5},
+            {'kind': 'drive', 'profile': 'algebra', 'traces': 160 if q else 2000, 'steps': 40},
+            {'kind': 'drive', 'profile': 'kernel', 'traces': 900 if q else 12000, 'steps': 0},
         ],
     }
 
